@@ -10,7 +10,7 @@ open Jl Jl.Driver Jl.Driver.Line Jl.Value Jl.Template
 
 def showO (o : Outcome Dyn) : String := showOutcome o
 
-def runTyped (fS tyS srcS extS writtenS back1S back2S : String) : Result :=
+def runTyped (fS tyS srcS extS writtenS back1S back2S : String) (oracleOnly : Bool := false) : Result :=
   match Format.ofName? fS, Ty.ofName? tyS, Dyn.parse? srcS with
   | some f, some ty, some v =>
     let env : Env := ⟨drvTables, parseExt extS⟩
@@ -39,7 +39,9 @@ def runTyped (fS tyS srcS extS writtenS back1S back2S : String) : Result :=
     let mbs := match mBack with | some o => showO o | none => "-"
     let abstain := mws == "err EXT" || mbs == "err EXT"
     let normBack (s : String) : String := if s == "-" then "-" else match parseOutcome s with | some o => showO o | none => s
-    let d := mws != writtenS || mbs != normBack back1S
+    -- `typedl` cases run with the package variable cast.TimeStringFormat set to another lossless layout by the
+    -- program: the model knows the pinned layout only, so it is not compared; the lossless oracle does not need it
+    let d := !oracleOnly && (mws != writtenS || mbs != normBack back1S)
     -- oracle
     let implBack := if back1S == "-" then none else parseOutcome back1S
     let p : Option String :=
